@@ -217,14 +217,14 @@ ENGINES = [
     {"name": "crashx", "path": "jfv/crashx.py", "serves_properties": ["C19"],
      "kind_free_text": "dump-point enumeration: reference run + fresh-interpreter resume of every dump, log equality"},
     {"name": "envx", "path": "jfv/envx.py", "serves_properties": ["C07", "C08", "C09", "C11", "C12", "C13", "C17", "C01",
-                                                                    "C04"],
+                                                                    "C04", "C10", "C18"],
      "kind_free_text": "stateless deviation-bounded exploration of the real event loop under a scripted random seam "
                        "(prefix replay on dill-cloned mediators, context-keyed draws, invariant monitors)"},
     {"name": "seqx", "path": "jfv/checks/c06.py", "serves_properties": ["C06", "C13", "C11"],
      "kind_free_text": "explicit-state BFS over operation histories on real objects (rebuilt per transition) against "
                        "a reference model, canonical-state deduplication"},
     {"name": "latx", "path": "jfv/par.py", "serves_properties": ["C14", "C15", "C16", "C05", "C18", "C02", "C03",
-                                                                    "C04", "C10"],
+                                                                    "C04", "C10", "C01", "C06"],
      "kind_free_text": "exhaustive evaluation of real functions/objects on finite critical-value lattices against "
                        "exact (Fraction / independent) reference models"},
 ]
